@@ -103,6 +103,7 @@ where
         }
     };
     st.accepted += 1;
+    let mut deferred: Option<(String, String)> = None;
     // ---- weights() reconstruction --------------------------------------------------
     let back = match guarded(|| alias.weights()) {
         Caught::Ok(b) => b,
@@ -124,9 +125,11 @@ where
         } else {
             back[i] == ws[i]
         };
-        if !ok {
-            return Err((
-                "model-mismatch(weights)".into(),
+        if !ok && deferred.is_none() {
+            // keep going: the sampling clauses of this vector are still checked, and a
+            // sampling failure takes precedence in the report
+            deferred = Some((
+                "model-mismatch(weights)".to_string(),
                 format!("weights()[{i}] = {} but the input was {} (input {:?})", back[i].lit(), ws[i].lit(), lits(&ws)),
             ));
         }
@@ -222,7 +225,10 @@ where
                 ));
             }
         }
-        return Ok(());
+        return match deferred {
+            Some(e) => Err(e),
+            None => Ok(()),
+        };
     }
     // statistical
     let nsamp: u64 = if thorough { 4_000_000 } else { 200_000 };
@@ -279,7 +285,10 @@ where
             return Err(("law(cell)".into(), format!("screen: {msg}; confirmation on an independent stream: {msg2}; weights {:?}", lits(&ws))));
         }
     }
-    Ok(())
+    match deferred {
+        Some(e) => Err(e),
+        None => Ok(()),
+    }
 }
 
 fn check_for(wty: WTy, ws: &[Lit], seed: u64, st: &mut AStats, thorough: bool) -> Result<(), (String, String)> {
